@@ -13,6 +13,7 @@ import (
 	"verif/explore"
 	"verif/harness/reg"
 
+	_ "verif/harness/c01"
 	_ "verif/harness/c03"
 	_ "verif/harness/c05"
 	_ "verif/harness/c07"
